@@ -28,6 +28,7 @@ MaxDepth = %(D)d
 RotK <- %(rot)s
 PhaseK <- %(ph)s
 MaxCtrl = %(mc)d
+MinCtrl = %(minc)d
 Export = %(exp)s
 INIT Init
 NEXT Next
@@ -39,8 +40,8 @@ INVARIANT AlphabetOK
 """
 
 
-def cfg(M, N, D, full=True, mc=2, export=True, extra="VIEW View"):
-    return CFG % dict(M=M, N=N, D=D, rot="RotKFull" if full else "RotKSmall", ph="PhaseKFull" if full else "PhaseKSmall",
+def cfg(M, N, D, full=True, mc=2, export=True, extra="VIEW View", minc=0):
+    return CFG % dict(minc=minc, M=M, N=N, D=D, rot="RotKFull" if full else "RotKSmall", ph="PhaseKFull" if full else "PhaseKSmall",
                       mc=mc, exp="TRUE" if export else "FALSE", extra=extra)
 
 
@@ -177,6 +178,69 @@ def sampled_mode(chk, bh, M, rng):
             chk.violation("cirq:sampled", bad, {"kind": "sampled", "bh": bh, "M": M, "shots": shots})
 
 
+def inplace_update(chk, trs, M, bname, part, rng, limit):
+    """History on ONE Circuit object and ONE backend instance: simulate, update the gate parameter in place (which Tangelo
+    allows), simulate again; the second result must be the spec's successor for the NEW parameter."""
+    from tangelo.linq import Circuit
+    groups = {}
+    for tr in trs:
+        g = tr["g"]
+        if g["name"] in ("RX", "RY", "RZ", "PHASE", "CRX", "CRY", "CRZ", "CPHASE", "XX"):
+            groups.setdefault((tr["n"], tr["gen"], g["name"], tuple(g["t"]), tuple(g["c"])), []).append(tr)
+    keys = sorted(k for k, v in groups.items() if len(v) >= 2 and k[1])
+    rng.shuffle(keys)
+    sim = backend(bname)
+    for key in keys[:limit]:
+        a, b = rng.sample(groups[key], 2)
+        n = a["n"]
+        s = [to_complex(e, M) for e in a["s"]]
+        iv = s if sim.statevector_order == "lsq_first" else reorder(s, n)
+        iv = np.array(iv, dtype=complex)
+        if bname == "sympy":
+            iv = iv.reshape((-1, 1))
+        c = Circuit([json_to_gate(a["g"], M)], n_qubits=n)
+        try:
+            sim.simulate(c, return_statevector=True, initial_statevector=iv)
+            c._gates[0].parameter = json_to_gate(b["g"], M).parameter
+            freqs, sv = sim.simulate(c, return_statevector=True, initial_statevector=iv)
+        except (ValueError, NotImplementedError):
+            continue
+        sv = [complex(x) for x in np.array(sv).astype(complex).ravel()]
+        if sim.statevector_order != "lsq_first":
+            sv = reorder(sv, n)
+        fz = {k: complex(v).real for k, v in freqs.items()}
+        bad = judge_result([to_complex(e, M) for e in b["t"]], n, fz, sv)
+        chk.add_traces(1, part)
+        if bad:
+            chk.violation("%s:inplace-parameter-update" % bname, "after updating the gate parameter in place and simulating the same "
+                          "Circuit object again: " + bad, {"kind": "inplace", "backend": bname, "first": a, "second": b, "M": M})
+
+
+def many_shots(chk, bh, M, rng):
+    """n_shots above the backend's internal sampling slice (10^7): frequencies must still be a normalised sample."""
+    from tangelo.linq import Circuit
+    n = bh["n"]
+    t = [to_complex(e, M) for e in bh["t"]]
+    s0 = [to_complex(e, M) for e in bh["s0"]]
+    probs = {bitstr(i, n): abs(a) ** 2 for i, a in enumerate(t)}
+    shots = 12 * 10 ** 6
+    sim = backend("cirq", n_shots=shots)
+    np.random.seed(rng.randrange(2 ** 31))
+    c = Circuit([json_to_gate(g, M) for g in bh["gates"]], n_qubits=n)
+    iv = np.array(s0, dtype=complex) if bh["src"] != "zero" else None
+    freqs, _ = sim.simulate(c, initial_statevector=iv)
+    bad = None
+    if abs(sum(freqs.values()) - 1) > 1e-9:
+        bad = "frequencies sum to %r with n_shots=%d" % (sum(freqs.values()), shots)
+    else:
+        for k, p in probs.items():
+            if abs(freqs.get(k, 0.0) - p) > 6 * math.sqrt(p * (1 - p) / shots) + 1.0 / shots:
+                bad = "frequency %.6f for %s outside 6 sigma of p=%.6f (n=%d)" % (freqs.get(k, 0.0), k, p, shots)
+    chk.add_traces(1, "sampled_many_shots")
+    if bad:
+        chk.violation("cirq:sampled:many-shots", bad, {"kind": "sampled", "bh": bh, "M": M, "shots": shots})
+
+
 def check_transitions(chk, trs, M, bname, part):
     n_ok = n_ref = 0
     for tr in trs:
@@ -251,11 +315,13 @@ def run(chk):
     quick = chk.quick
     # ---------------- S + G: exhaustive one-step exploration ------------------------------------
     jobs = []
-    plan = [(8, 1, 1, True, 2), (8, 2, 1, True, 2), (8, 3, 1, True, 2)]
+    # (M, N, depth, full angle sets, MaxCtrl, MinCtrl)
+    plan = [(8, 1, 1, True, 2, 0), (8, 2, 1, True, 2, 0), (8, 3, 1, True, 2, 0), (8, 4, 1, False, 3, 2)]
     if not quick:
-        plan += [(8, 2, 2, False, 2), (8, 3, 2, False, 2), (16, 1, 1, True, 1), (16, 2, 1, True, 1), (8, 4, 1, False, 3)]
-    for (M, N, D, full, mc) in plan:
-        jobs.append(dict(module="C01Sim", cfg=cfg(M, N, D, full, mc), name="c01/bfs_M%d_N%d_D%d" % (M, N, D),
+        plan += [(8, 2, 2, False, 2, 0), (8, 3, 2, False, 2, 0), (16, 1, 1, True, 1, 0), (16, 2, 1, True, 1, 0), (8, 4, 1, False, 3, 0),
+                 (8, 5, 1, False, 3, 3)]
+    for (M, N, D, full, mc, minc) in plan:
+        jobs.append(dict(module="C01Sim", cfg=cfg(M, N, D, full, mc, minc=minc), name="c01/bfs_M%d_N%d_D%d_c%d" % (M, N, D, minc),
                          workers=2 if quick else 4, coverage=False, heap="6g", timeout=7200))
     # ---------------- behaviours for whole-circuit replay (tlc -simulate) ----------------------
     sims = []
@@ -268,10 +334,10 @@ def run(chk):
     results = tlc.run_many(jobs + sims)
     bfs, simres = results[:len(jobs)], results[len(jobs):]
     all_tr = []
-    for (M, N, D, full, mc), r in zip(plan, bfs):
+    for (M, N, D, full, mc, minc), r in zip(plan, bfs):
         if not r.ok:
             raise tlc.TLCError("C01Sim invariant violated in the specification itself: %s\n%s" % (r.violated, r.out[-2000:]))
-        chk.add_tlc(r, "bfs_M%d_N%d_D%d" % (M, N, D))
+        chk.add_tlc(r, "bfs_M%d_N%d_D%d_minctrl%d" % (M, N, D, minc))
         trs = r.prints("TR")
         for tr in trs:
             tr["M"] = M
@@ -283,6 +349,8 @@ def run(chk):
         by_m.setdefault(tr["M"], []).append(tr)
     for M, trs in by_m.items():
         check_transitions(chk, trs, M, "cirq", "cirq_transitions_M%d" % M)
+    inplace_update(chk, by_m[8], 8, "cirq", "inplace_update_cirq", rng, 40 if quick else 400)
+    inplace_update(chk, [t for t in by_m[8] if t["n"] <= 2], 8, "sympy", "inplace_update_sympy", rng, 8 if quick else 60)
     # sympy: slow (symbolic) -> seeded sample stratified by gate class
     classes = {}
     for tr in all_tr:
@@ -309,6 +377,8 @@ def run(chk):
                 check_behaviour(chk, bh, 8, "sympy", "sympy_behaviours")
             if i % (10 if quick else 4) == 0:
                 sampled_mode(chk, bh, 8, rng)
+            if i == 1 and bh["n"] <= 2:
+                many_shots(chk, bh, 8, rng)
         if bhs:
             chk.sample({"behaviour": {"n": bhs[0]["n"], "src": bhs[0]["src"], "gates": bhs[0]["gates"]}})
     chk.part("behaviours", count=n_bh)
